@@ -134,3 +134,51 @@ def l2_regime(cap, c0, pmax, tsoc, pilot, V, T_min):
     if t1 >= h:
         return "pilot-limited-below-transition" if a < m else "power-limited-below-transition"
     return "crossing"
+
+
+# ------------------------------------------------------------ tariffs
+class TariffOracle:
+    """Direct interpretation of a tariff JSON document (independent of tou_tariff.py)."""
+
+    MASKS = {"WEEKDAYS": {0, 1, 2, 3, 4}, "WEEKENDS": {5, 6}, "ALL": {0, 1, 2, 3, 4, 5, 6}}
+
+    def __init__(self, doc):
+        self.sched = []
+        for s in doc["schedule"]:
+            st = tuple(int(x) for x in s["effective_start"].split("-"))
+            en = tuple(int(x) for x in s["effective_end"].split("-"))
+            bps = sorted((Fraction(str(t)), float(r)) for t, r in zip(s["times"], s["tariffs"]))
+            self.sched.append({"id": s["id"], "start": st, "end": en, "dows": self.MASKS[s["dow_mask"]],
+                               "bps": bps, "demand": s["demand_charge"]})
+
+    @staticmethod
+    def _in_season(md, st, en):
+        if st <= en:
+            return st <= md <= en
+        return md >= st or md <= en  # wraps the new year
+
+    def matches(self, dt):
+        md = (dt.month, dt.day)
+        return [s for s in self.sched if dt.weekday() in s["dows"] and self._in_season(md, s["start"], s["end"])]
+
+    def lookup(self, dt):
+        """(rate, demand charge, schedule id) or raises LookupError with the number of matches."""
+        m = self.matches(dt)
+        if len(m) != 1:
+            raise LookupError(len(m))
+        s = m[0]
+        h = Fraction(dt.hour) + Fraction(dt.minute, 60) + Fraction(dt.second, 3600)
+        rate = None
+        for t, r in s["bps"]:
+            if t <= h:
+                rate = r
+        if rate is None:
+            raise LookupError(-1)
+        return rate, s["demand"], s["id"]
+
+    def breakpoints(self):
+        out = set()
+        for s in self.sched:
+            for t, _ in s["bps"]:
+                out.add(t)
+        return sorted(out)
